@@ -510,7 +510,7 @@ package mcp
 
 // The best-effort cancellation notice: sent with the caller's values but not its cancellation, bounded by the
 // notification timeout, referencing exactly the abandoned call.
-//@ func call$1 [C04]
+//@ func call$1 [C04, C10]
 //@   requires conn != nil
 //@   track context.WithoutCancel as detach
 //@   track context.WithTimeout as bound
@@ -541,9 +541,13 @@ package mcp
 
 // Read: when a batch arrives, exactly the calls in it (requests carrying an id) are tracked for the batch reply;
 // notifications never are (they get no response, so tracking one would withhold the reply for ever).
-//@ func (*ioConn).Read [C02]
+//@ func (*ioConn).Read [C02, C03]
+//@   track readBatch as split
 //@   modifies *
 //@   requires t != nil
+//@   ensures @queued-batch-messages-come-out-in-order old(len(t.queue)) > 0 && result.1 == nil ==> result.0 == old(t.queue[0]) && len(t.queue) == old(len(t.queue)) - 1 && backing(t.queue) == old(backing(t.queue)) && off(t.queue) == old(off(t.queue)) + 1
+//@   ensures @the-rest-of-a-new-batch-is-queued-in-order old(len(t.queue)) == 0 && result.1 == nil && calls(split) == 1 ==> backing(t.queue) == backing(callResult(split, 1, 0)) && off(t.queue) == off(callResult(split, 1, 0)) + 1 && len(t.queue) == len(callResult(split, 1, 0)) - 1
+//@   snapshot parsed after call readBatch
 //@   assert at call addBatch: @only-calls-are-tracked forall id jsonrpc2.ID :: {inDom($1.unresolved, id)} id in $1.unresolved ==> id.value != nil
 //@   loop 1: invariant @only-calls-are-tracked local(respBatch) != nil ==> local(respBatch).unresolved != nil
 //@        && (forall id jsonrpc2.ID :: {inDom(local(respBatch).unresolved, id)} id in local(respBatch).unresolved ==> id.value != nil)
@@ -1080,6 +1084,7 @@ package mcp
 //@   rangeloop invariant @cursor-only-moves-forward resumeID != "" ==> local(lastEventID) != ""
 //@   ensures @cursor-is-never-forgotten !result.2 && resumeID != "" ==> result.0 != ""
 //@   ensures @synthetic-error-only-without-a-cursor !result.2 && calls(synthetic) >= 1 ==> result.0 == ""
+//@   ensures @an-unresumable-call-stream-that-ends-fails-the-call !result.2 && result.0 == "" && forCall != nil ==> calls(synthetic) >= 1
 //@   ensures @closed-paths-hand-back-nothing result.2 ==> result.0 == "" && result.1 == 0
 
 // connectSSE: every reconnect request names the resume cursor it was given in Last-Event-ID; the number of requests
